@@ -34,7 +34,7 @@ bool tagUnitsMatchRefsUnits::operator()(const std::vector<DataArray> &references
                 du = dims_units[i];
                 if (du != "none") {
                     if (!tu.empty() && tu != "none") {
-                        match = util::isScalable(tu, du); 
+                        match = match && util::isScalable(tu, du); 
                     }
                 }
             } else {
